@@ -12,7 +12,7 @@ def os2ip (b : Bytes) : Nat := b.foldl (fun acc x => acc * 256 + x) 0
 def i2osp (v len : Nat) : Bytes := (List.range len).map (fun i => v / 256 ^ (len - 1 - i) % 256)
 
 def hexDigit (n : Nat) : Char := if n < 10 then Char.ofNat (48 + n) else Char.ofNat (87 + n)
-def toHex (b : Bytes) : String := String.mk (b.flatMap (fun x => [hexDigit (x / 16), hexDigit (x % 16)]))
+def toHex (b : Bytes) : String := String.ofList (b.flatMap (fun x => [hexDigit (x / 16), hexDigit (x % 16)]))
 
 def hexVal (c : Char) : Option Nat :=
   if '0' ≤ c ∧ c ≤ '9' then some (c.toNat - 48)
